@@ -807,6 +807,14 @@ class Emitter:
                         fr = "assume(%s.frame_ok(&%s));   // ASSUMED (E13 frame): the abandoned alternative left the tree below the saved mark alone" % (r, sv)
                     self.ed.insert(st[d.i0].s, "let ghost %s = *%s;\n%s    proof {\n%s        %s\n%s        lemma_restorable(%s, &%s, &s_%d);\n%s    }\n%s    " % (g, r, ind, ind, fr, ind, r, sv, k, ind, ind))
                     self.ed.insert(st[d.i1].e, "\n%s    proof { lemma_restored(%s, &%s, &%s, &s_%d); }" % (ind, r, g, sv, k))
+            if last_alt is not None and c.kind == "if":
+                # the rule's own local state (conditional elision, active rename, marks) shows no trace of the
+                # abandoned alternative either: every local assigned inside it is back to its value at entry
+                lp = last_alt.loop
+                pins = [v for v in self.assigned_outer(lp.i_brace, lp.i_end) if v != last_alt.flag]
+                if pins:
+                    chk = " ".join("assert(%s == %s_%s);" % (v, v, last_alt.label[1:]) for v in pins)
+                    self.ed.insert(st[c.i1].s, "    proof { %s }   // [C08] locals assigned by the abandoned alternative are restored\n%s" % (chk, ind))
         self.report.setdefault("assumed_frames", []).append({"fn": self.key, "set_state_calls": nset, "frame_assumed_at": nassumed})
 
     def emit_alt(self, s, opened, closed):
@@ -820,10 +828,10 @@ class Emitter:
         a = "a_" + s.label[1:]
         pre = "let ghost p_%d = %s.pos; let ghost c_%d = %s.current; let ghost %s = *%s;\n%s" % (k, r, k, r, a, r, ind)
         for v in pins:
-            pre += "let ghost %s_%d = %s;\n%s" % (v, k, v, ind)
+            pre += "let ghost %s_%s = %s;\n%s" % (v, s.label[1:], v, ind)
         self.ed.insert(st[s.i0].s, pre)
         self.ed.insert(st[lp.i_lbl].s, self.PSEUDO_ATTR)
-        exc = ["*%s == %s,   // the body runs once" % (r, a), "!%s," % s.flag] + ["%s == %s_%d," % (v, v, k) for v in pins]
+        exc = ["*%s == %s,   // the body runs once" % (r, a), "!%s," % s.flag] + ["%s == %s_%s," % (v, v, s.label[1:]) for v in pins]
         # no `ensures` (ignored by Verus for non-isolated loops, see emit_oc): what holds when the
         # alternative is abandoned is asserted right after the loop instead, tagged, so that a failure
         # names the property
@@ -935,9 +943,24 @@ def c07_prepare(ix, f, body, rule, tabs, right_names):
     rassoc, tokens, if-node, rec-node or None)], prefix [(rec node, branch index, power)], nbranches."""
     import pratt
     sig = ix.text(f.i_lparen, f.i_rparen)
-    if "min_bp" not in sig:
-        return None, "no binding powers are emitted for this rule (one recursive branch, or only left-recursive branches)"
     tb = tabs.get(rule)
+    if "min_bp" not in sig:
+        # does the GRAMMAR TEXT need binding powers?  (not decided from the emitted code)
+        if tb is not None:
+            kinds = [b["kind"] for b in tb["branches"]]
+            infix = [i for i, k in enumerate(kinds) if k == "leftright"]
+            need = None
+            if infix and len(kinds) >= 2:
+                need = "an infix operator (branch %d) next to %d other recursive branch(es)" % (infix[0] + 1, len(kinds) - 1)
+            else:
+                for i, k in enumerate(kinds):
+                    later = [j for j in range(i + 1, len(kinds)) if kinds[j] in ("left", "leftright")]
+                    if k == "right" and later:
+                        need = "a prefix operator (branch %d) declared before the postfix/infix operator of branch %d, which it must not absorb" % (i + 1, later[0] + 1)
+                        break
+            if need:
+                return {"missing_bp": need, "rule": rule}, None
+        return None, "no binding powers are emitted for this rule (one recursive branch, or only left-recursive branches)"
     if tb is None:
         return None, "rule not found as a left-recursive rule in the grammar text"
     br = tb["branches"]
@@ -1115,6 +1138,11 @@ def annotate(ix, ed, report, skeleton_only=False):
             info, why = c07_prepare(ix, f, body, rule, tabs, tabs.get("_right", set()))
             if info is None:
                 c07rep[rule] = {"covered": False, "reason": why}
+            elif "missing_bp" in info:
+                # the grammar text needs a minimum binding power and the emitted function has none: an
+                # obligation that cannot be discharged, placed in the function the property is about
+                c07rep[rule] = {"covered": True, "branches": [], "prefix": [], "missing_binding_powers": info["missing_bp"]}
+                ed.insert(st[f.i_body].e, "\n        assert(false);   // [C07] the grammar text has %s: that needs a minimum binding power in this function, none is emitted" % info["missing_bp"])
             else:
                 sp, clause = c07_emit(ix, ed, f, info, alphabet)
                 c07_specs.append(sp)
@@ -1159,6 +1187,34 @@ def annotate(ix, ed, report, skeleton_only=False):
         other.extend(unk)
         rep["functions"][key] = {"P": sorted(it.P[key]), "N": sorted(it.N[key]), "C": sorted(it.C[key]), "rank": rank.get(key, 0), "loops": em.nloop}
     rep["unrecognised_statements"] = other
+    # calls from emitted rule functions to parser functions for which no contract exists (a new runtime
+    # function): nothing can be concluded from a failed caller then -- the unit is UNDECIDED (needs contract)
+    known = set(k.split("::", 1)[1] for k in report.get("contracts_applied", []) if k.startswith("Parser::"))
+    meths = set()
+
+    def calls(stmts):
+        for s in stmts:
+            if s.kind == "call":
+                meths.add(s.method)
+            elif s.kind == "trycall" and s.call.kind == "call":
+                meths.add(s.call.method)
+            elif s.kind in ("loop", "oc", "altloop"):
+                calls(s.body)
+            elif s.kind == "alt":
+                calls(s.core)
+                calls(s.ok)
+            elif s.kind == "match":
+                for a in s.arms:
+                    calls(a.body)
+            elif s.kind == "if":
+                calls(s.then)
+                if s.els:
+                    calls(s.els)
+    for key, (f, body) in fobj.items():
+        if body is not None:
+            calls(body)
+    rep["uncontracted_calls"] = sorted(m for m in meths if m not in known and m != "create_diagnostic"
+                                       and not m.startswith(("rule_", "create_node_", "delete_node_", "action_", "predicate_", "assertion_")))
     rep["c07"] = c07rep
     report["annotator"] = rep
     # assumed contracts of E8 functions
